@@ -15,6 +15,7 @@ import random
 import sys
 import time
 import traceback
+import zlib
 from collections import Counter
 
 from . import repo
@@ -335,7 +336,7 @@ def run_shard(ctx, budget_s):
                 total = total(ctx)
             done_all = True
             for idx in range(total):
-                if idx % n != i:
+                if zlib.crc32(f"{wl.name}:{idx}".encode()) % n != i:
                     continue
                 if time.time() - ctx.t0 > budget_s:
                     ctx.truncated.append(f"{wl.name}@{idx}/{total}")
